@@ -496,12 +496,13 @@ func main() {
 		evaluate(g.cases[0], false)
 		return
 	}
-	r.Rule = "six layers, each a full product consumed to the end: L1 {rate, count_over_time, bytes_rate, bytes_over_time} x pipelines {none, line filter |= != |~, label filter = != >} and " +
+	r.Rule = "seven layers, each a full product consumed to the end: L1 {rate, count_over_time, bytes_rate, bytes_over_time} x pipelines {none, line filter |= != |~, label filter = != >} and " +
 		"{rate, sum/avg/min/max/first/last_over_time} on `| json v=\"v\" | unwrap v` x {none, line filter, label filter before json, numeric label filter on the extracted label} x range {5s,10s,15s,1m} x (from,to) on/off bucket boundaries x step {range/2, range, 2*range} " +
 		"x every sub-database of <=3 (thorough <=4) entries of a 9-entry pool (entry just before the window, on a bucket boundary, inside, last ns of a bucket, in later buckets; two streams; plus a metric-type sample and a non-selected stream in every database); " +
 		"L2 {sum,min,max,avg,count} x {no grouping, by/without in prefix and suffix position} x inner range aggregations x steps x every sub-database of <=3 (4) entries of a 9-entry pool of three streams sharing / not sharing a and b; " +
 		"L3 six comparison operators x thresholds on / between values x position (range aggregation, vector aggregation, inside a vector aggregation, topk); L4 topk/bottomk x k in 1..3 x five inner expressions (ties at the cut occur); " +
 		"L6 compositions: comparison over topk/bottomk (k 1..2) over {count, rate, unwrapped sum, vector aggregation}, top/bottom-k over (vector aggregation over comparison), comparison at range level and at vector level in one query, all three positions at once, x 6 operators x thresholds straddled by the values, at 5 s (samples path) and 15 s (metrics_15s shortcut), on all 63 distributions of 0..3 entries per stream (three series with pairwise distinct values); " +
+		"L7 grouping compositions: (clause on the unwrapped range function) x (clause on the vector aggregation) over {none, by(L), without(L)}, L in {a},{a,b},{b} (subset, superset, disjoint, equal), prefix and suffix position, x {sum,max,count}, on every sub-database of <=3 (4) entries of four streams (two differing only in b, one in a, one without b) x two buckets; " +
 		"L5 ungrouped unwrap, missing / non-numeric / zero / negative unwrapped values, equal timestamps, empty line filters, quantile_over_time, thresholds with > 6 decimals, cluster mode, ranges 20s/30s, further matchers. " +
 		"A case is distinct by (query text, database, from, to, step, cluster) - asserted unique at generation; non-trivial = the reference result is non-empty"
 	r.Assumptions = []string{
